@@ -277,6 +277,34 @@ def run_ungrouped(E, case, prop):
     return _finish(res, E)
 
 
+def run_ungrouped_timed(E, case, prop):
+    """_ema_time_weighted (the ungrouped, time-weighted entry) == _ema_grouped_timed of a single group, from the first valid row on"""
+    t0 = time.time()
+    N = case["N"]
+    em = E["emas"]
+    res = _blank()
+    H = 1000
+    for ds in itertools.product((0, 1, 2), repeat=N - 1):
+        inp = Inputs()
+        xs = inp.values("x", N, "float64")
+        origin = inp.scalar_int("t0", -10**6, 10**6)
+        offs = [0] + list(itertools.accumulate(ds))
+        ts = [origin + H * o for o in offs]
+        inp.vars["offsets"] = ("const", offs, "int64")
+        rt = fresh_runtime()
+        install_exp(rt, maxd=0)
+        og = em["_ema_grouped_timed"](A([0] * N, "int64"), A(xs, "float64").tag("input:values"), A(ts, "int64").tag("input:times"), H, 1, None)
+        ou = em["_ema_time_weighted"](A(xs, "float64").tag("input:values"), A(ts, "int64").tag("input:times"), H)
+        bl = []
+        seen_valid = False
+        for i in range(N):
+            seen_valid = b_or(seen_valid, b_not(_isnan(xs[i])))
+            bl.append((f"time-weighted: single-group grouped == ungrouped[{i}]", b_and(seen_valid, b_not(same(_sf(og.cells[i]), _sf(ou.cells[i]))))))
+        _decide_into(res, inp, bl, rt, case, prop, {"offsets": offs}, sig="ema_timed_single_group_vs_ungrouped")
+    res["symex_s"] = time.time() - t0 - res["solver_s"]
+    return _finish(res, E)
+
+
 def run_halflife_api(E, case, prop):
     """ema(halflife=h) and ema_grouped(halflife=h) must both use alpha = 1 - 2^(-1/h), for every real h > 0
     (native run of the real parameter handling; pd.Timedelta contract stub; exp as pow2; kernels replaced by recorders)"""
@@ -512,6 +540,19 @@ def replay(case, conc, cand=None):
                 if started and not approx_same(float(og[i]), float(ou[i])):
                     bad.append(i)
             return bool(bad), {"grouped": jsonable(list(og)), "ungrouped": jsonable(list(ou)), "wrong_rows": bad}
+        if v == "ungrouped_timed":
+            xs = [float(c) for c in to_float_cells(conc["x"])]
+            H = 1000
+            t = [int(conc["t0"][0]) + H * o for o in case["offsets"]]
+            og = rem._ema_grouped_timed(real_np.zeros(len(xs), dtype="int64"), real_np.array(xs), real_np.array(t, dtype="int64"), H, 1, None)
+            ou = rem._ema_time_weighted(real_np.array(xs), real_np.array(t, dtype="int64"), H)
+            started = False
+            bad = []
+            for i in range(len(xs)):
+                started = started or xs[i] == xs[i]
+                if started and not approx_same(float(og[i]), float(ou[i])):
+                    bad.append(i)
+            return bool(bad), {"grouped": jsonable(list(og)), "ungrouped": jsonable(list(ou)), "wrong_rows": bad, "x": jsonable(xs), "t": t}
         if v == "halflife_api":
             h = float(conc["h"][0])
             vals = real_np.array([1.0, 2.0, 4.0])
